@@ -10,10 +10,8 @@
        every observation a script can make) with the skeleton of `run`: exit paths, the LIFO chain
        of deferred functions, the bookkeeping of `ts.background`, the deferred blocks of `run`;
     §5 the reference-counted cleanup of RunT as a transition system over N finishers.
-  C17 (deadline):
-    §1 the grace-period arithmetic of RunT;
-    §6 `waitOrStop` as a transition system with three actors and an abstract clock;
-    §7 the error attribution of `cmdExec`.
+  The C17 part (grace arithmetic, waitOrStop, cmdExec attribution) is GIV/Model/TsLifeDl.lean,
+  with facts of its own (GIV/Gen/TsLifeDl.lean): the two properties' chains are kept apart.
 
   Every constant / table / deciding expression comes from `GIV.Gen.TsLife` (regenerated from the
   source on every run).  Structural facts that the model cannot consume as a value (statement
@@ -28,41 +26,6 @@ import GIV.Gen.TsLife
 namespace GIV.TsLife
 open GIV
 open GIV.Gen.TsLife (VarSrc)
-
-/-! ## §1 grace-period arithmetic (RunT) -/
-
-/-! Go `time.Duration` values are nanoseconds as unbounded integers (`Int`); int64 overflow needs a
-deadline more than 146 years away and is not modelled. -/
-
-/-- `gp := timeout / 20; if gp > gracePeriod { gracePeriod = gp }` starting from the default. Go's
-`/` on integers truncates toward zero: `Int.tdiv`. -/
-def grace (timeout : Int) : Int :=
-  let gp := Int.tdiv timeout Gen.TsLife.graceDivisor
-  if (if Gen.TsLife.graceCmpStrict then decide (gp > Gen.TsLife.defaultGraceNs) else decide (gp ≥ Gen.TsLife.defaultGraceNs))
-  then gp else Gen.TsLife.defaultGraceNs
-
-/-- `timeout -= 2 * gracePeriod`: the argument of `context.WithTimeout`. -/
-def ctxTimeout (timeout : Int) : Int := timeout - Gen.TsLife.reservedGraces * grace timeout
-
-/-- kill delay of a foreground `exec` (`waitOrStop(ts.ctxt, cmd, ts.gracePeriod)`). -/
-def fgKillDelay (timeout : Int) : Int := grace timeout
-
-/-- The plan for a run whose deadline is `timeout` away: offsets from the moment RunT is called. -/
-structure Plan where
-  grace : Int
-  interruptAt : Int   -- the context expires: blocked foreground commands get the interrupt
-  killAt : Int        -- commands that ignore it are killed
-  deriving Repr, DecidableEq
-
-def plan (timeout : Int) : Plan :=
-  ⟨grace timeout, ctxTimeout timeout, ctxTimeout timeout + fgKillDelay timeout⟩
-
-/-- structural facts behind §1: the order of the four statements and that every script gets this
-context and this grace period, which `exec` hands to waitOrStop as the kill delay. -/
-class FDeadline : Prop where
-  order : Gen.TsLife.deadlineOrder = true
-  fields : Gen.TsLife.tsGetsCtxAndGrace = true
-  fg : Gen.TsLife.fgKillDelayIsGrace = true
 
 /-! ## §2 the initial environment (setup) -/
 
@@ -547,256 +510,5 @@ class FRef : Prop where
   plain : Gen.TsLife.rootRemoveIsPlainRemove = true
   cancel : Gen.TsLife.cancelAfterRootRemove = true
   deferred : Gen.TsLife.cleanupDeferredBeforeRun = true
-
-/-! ## §6 waitOrStop: waiter, stopper goroutine, process, abstract clock -/
-
-/-- how the process ended -/
-inductive Fate where
-  | own      -- exited by itself
-  | bySig    -- because of the interrupt
-  | byKill
-  deriving Repr, DecidableEq
-
-inductive Proc where
-  | running (pendInt pendKill : Bool)   -- signals delivered and not (yet) acted upon
-  | exited (how : Fate)
-  deriving Repr, DecidableEq
-
-/-- non-nil error values the stopper can send -/
-inductive SErr where
-  | ctxErr    -- ctx.Err()
-  | other     -- the error of a failed Signal call
-  deriving Repr, DecidableEq
-
-inductive Waiter where
-  | waiting                       -- inside cmd.Wait()
-  | ready                         -- Wait returned; at `<-errc`
-  | returned (v : Option SErr)    -- received v
-  deriving Repr, DecidableEq
-
-inductive Stopper where
-  | sel1                                  -- select { errc <- nil | <-ctx.Done() }
-  | sig                                   -- about to call cmd.Process.Signal(interrupt)
-  | sendNil                               -- errc <- nil (ErrProcessDone)
-  | sel2 (err : SErr) (start : Nat)       -- select { errc <- ctx.Err() | <-timer.C }, timer started at `start`
-  | kill (err : SErr)                     -- about to call cmd.Process.Kill()
-  | sendErr (err : SErr)                  -- errc <- err
-  | done
-  deriving Repr, DecidableEq
-
-/-- scenario class: the parameters waitOrStop does not control. -/
-structure Scn where
-  killDelay : Int
-  deadline : Option Nat   -- when the context expires on the abstract clock; none = no deadline
-  mayExit : Bool          -- the process may exit by itself, at any moment
-  onInt : Bool            -- the process exits, after an arbitrary delay, once the interrupt was delivered
-  deriving Repr, DecidableEq
-
-structure St where
-  now : Nat
-  ctxDone : Bool
-  proc : Proc
-  w : Waiter
-  s : Stopper
-  sends : Nat
-  recvs : Nat
-  sigAt : Option Nat      -- when cmd.Process.Signal was called
-  delivered : Bool        -- … and reached a live process
-  killAt : Option Nat     -- when cmd.Process.Kill was called
-  deriving Repr, DecidableEq
-
-def St.init : St := ⟨0, false, .running false false, .waiting, .sel1, 0, 0, none, false, none⟩
-
-/-- result of `cmd.Process.Signal` -/
-inductive SigRes where
-  | ok | processDone | other
-  deriving Repr, DecidableEq
-
-inductive Lbl where
-  | ctxFire (t : Nat)
-  | exitOwn (t : Nat)
-  | exitSig (t : Nat)
-  | exitKill (t : Nat)
-  | waitRet (t : Nat)
-  | sendRecv (t : Nat)        -- rendezvous on the unbuffered errc
-  | selCtx (t : Nat)          -- the first select takes `<-ctx.Done()`
-  | signal (t : Nat) (r : SigRes)
-  | timer (t : Nat)           -- the second select takes `<-timer.C`
-  | kill (t : Nat)
-  deriving Repr, DecidableEq
-
-def Lbl.time : Lbl → Nat
-  | .ctxFire t | .exitOwn t | .exitSig t | .exitKill t | .waitRet t | .sendRecv t | .selCtx t
-  | .signal t _ | .timer t | .kill t => t
-
-/-- `if killDelay > 0` -/
-def killArmed (kd : Int) : Bool :=
-  if Gen.TsLife.wosKillGuardStrict then decide (kd > 0) else decide (kd ≥ 0)
-
-/-- what the stopper offers on errc in its current state -/
-def Stopper.offer : Stopper → Option (Option SErr)
-  | .sel1 => some none
-  | .sendNil => some none
-  | .sel2 _ _ => some (some .ctxErr)
-  | .sendErr e => some (some e)
-  | _ => none
-
-def afterSignal (c : Scn) (e : SErr) (t : Nat) : Stopper :=
-  if killArmed c.killDelay then .sel2 e t else .sendErr e
-
-def stepCore (c : Scn) (s : St) : Lbl → Option St
-  | .ctxFire t =>
-    match c.deadline with
-    -- once waitOrStop has returned nobody in this system looks at the context any more
-    | some d => if !s.ctxDone && d ≤ t && s.s != .done then some { s with ctxDone := true } else none
-    | none => none
-  | .exitOwn _ =>
-    match s.proc with
-    | .running _ _ => if c.mayExit then some { s with proc := .exited .own } else none
-    | _ => none
-  | .exitSig _ =>
-    match s.proc with
-    | .running true _ => if c.onInt then some { s with proc := .exited .bySig } else none
-    | _ => none
-  | .exitKill _ =>
-    match s.proc with
-    | .running _ true => some { s with proc := .exited .byKill }
-    | _ => none
-  | .waitRet _ =>
-    match s.w, s.proc with
-    | .waiting, .exited _ => some { s with w := .ready }
-    | _, _ => none
-  | .sendRecv _ =>
-    match s.w, s.s.offer with
-    | .ready, some v => some { s with w := .returned v, s := .done, sends := s.sends + 1, recvs := s.recvs + 1 }
-    | _, _ => none
-  | .selCtx _ =>
-    match s.s with
-    | .sel1 => if s.ctxDone then some { s with s := .sig } else none
-    | _ => none
-  | .signal t r =>
-    match s.s with
-    | .sig =>
-      match s.proc, r with
-      | .running _ pk, .ok => some { s with proc := .running true pk, delivered := true, sigAt := some t, s := afterSignal c .ctxErr t }
-      | .running _ _, .other => some { s with sigAt := some t, s := afterSignal c .other t }
-      | .running _ _, .processDone => none
-      | .exited _, .ok => some { s with sigAt := some t, s := afterSignal c .ctxErr t }
-      | .exited _, .processDone => some { s with sigAt := some t, s := .sendNil }
-      | .exited _, .other => none
-    | _ => none
-  | .timer t =>
-    match s.s with
-    | .sel2 e st => if (st : Int) + c.killDelay ≤ (t : Int) then some { s with s := .kill e } else none
-    | _ => none
-  | .kill t =>
-    match s.s with
-    | .kill e =>
-      let p := match s.proc with
-        | .running pi _ => Proc.running pi true
-        | p => p
-      some { s with proc := p, killAt := some t, s := .sendErr e }
-    | _ => none
-
-/-- one step: time never goes back. -/
-def step (c : Scn) (s : St) (l : Lbl) : Option St :=
-  if s.now ≤ l.time then
-    match stepCore c s l with
-    | some s' => some { s' with now := l.time }
-    | none => none
-  else none
-
-def runLbls (c : Scn) (s : St) : List Lbl → Option St
-  | [] => some s
-  | l :: rest => match step c s l with
-    | none => none
-    | some s' => runLbls c s' rest
-
-/-- what waitOrStop returns -/
-inductive Res where
-  | interruptErr (e : SErr)
-  | waitStatus (how : Fate)
-  deriving Repr, DecidableEq
-
-def St.result (s : St) : Option Res :=
-  match s.w, s.proc with
-  | .returned (some e), _ => some (.interruptErr e)
-  | .returned none, .exited h => some (.waitStatus h)
-  | _, _ => none
-
-/-- waitOrStop has returned and its goroutine is gone. -/
-def St.final (s : St) : Bool :=
-  (match s.w with | .returned _ => true | _ => false) && s.s == .done && s.sends == 1 && s.recvs == 1
-
-/-- candidate labels at time `t` (for enumeration in the driver and for examples). -/
-def labelsAt (t : Nat) : List Lbl :=
-  [.ctxFire t, .exitOwn t, .exitSig t, .exitKill t, .waitRet t, .sendRecv t, .selCtx t,
-   .signal t .ok, .signal t .processDone, .signal t .other, .timer t, .kill t]
-
-/-- the time at which the enumeration tries labels: late enough for the context and the timer. -/
-def probeTime (c : Scn) (s : St) : Nat :=
-  let a := match c.deadline with | some d => d | none => 0
-  let b := match s.s with | .sel2 _ st => ((st : Int) + c.killDelay).toNat | _ => 0
-  max s.now (max a b)
-
-/-- coarse outcome of an execution, comparable with what a harness can observe from outside. -/
-structure Coarse where
-  ctxDone : Bool
-  delivered : Bool      -- the helper saw the interrupt (or died from it)
-  killed : Bool         -- Kill was called while the process was alive / the helper died by SIGKILL
-  res : Res
-  deriving Repr, DecidableEq
-
-def St.coarse (s : St) : Option Coarse :=
-  match s.result with
-  | some r => some ⟨s.ctxDone, s.delivered, s.proc == .exited .byKill, r⟩
-  | none => none
-
-/-- all maximal executions, explored depth-first with fuel; returns the coarse outcomes of the final
-states and the number of stuck non-final states. -/
-def explore (c : Scn) : Nat → St → List Coarse × Nat
-  | 0, _ => ([], 1)
-  | fuel + 1, s =>
-    let succs := (labelsAt (probeTime c s)).filterMap (step c s)
-    if succs.isEmpty then
-      if s.final then (match s.coarse with | some x => ([x], 0) | none => ([], 1)) else ([], 1)
-    else succs.foldl (fun acc s' =>
-      let r := explore c fuel s'
-      (r.1.foldl (fun l x => if l.contains x then l else l ++ [x]) acc.1, acc.2 + r.2)) ([], 0)
-
-class FWos : Prop where
-  unbuffered : Gen.TsLife.wosUnbuffered = true
-  firstSelect : Gen.TsLife.wosFirstSelect = true
-  attribution : Gen.TsLife.wosSignalAttribution = true
-  guardStrict : Gen.TsLife.wosKillGuardStrict = true
-  secondSelect : Gen.TsLife.wosSecondSelect = true
-  finalSend : Gen.TsLife.wosFinalSendErr = true
-  waitThenRecv : Gen.TsLife.wosWaitThenRecv = true
-
-/-! ## §7 cmdExec: error attribution -/
-
-inductive ExecOutcome where
-  | ok
-  | fatal (msg : String)
-  deriving Repr, DecidableEq
-
-/-- foreground `exec`: `err` = waitOrStop (or Start) returned a non-nil error; `ctxErrNow` =
-`ts.ctxt.Err() != nil` when the check runs. -/
-def cmdExecOutcome (neg err ctxErrNow : Bool) : ExecOutcome :=
-  if !err then
-    if neg && Gen.TsLife.successNegFatal then .fatal "unexpected command success" else .ok
-  else if Gen.TsLife.timeoutCheckedFirst then
-    if ctxErrNow then .fatal Gen.TsLife.timedOutMsg
-    else if !neg then .fatal "unexpected command failure" else .ok
-  else
-    if !neg then .fatal "unexpected command failure"
-    else if ctxErrNow then .fatal Gen.TsLife.timedOutMsg else .ok
-
-/-- `err != nil` as seen by cmdExec, from the result of waitOrStop: an interrupt error, or the
-process's own failure status (`ownFailed`). -/
-def Res.isErr (ownFailed : Bool) : Res → Bool
-  | .interruptErr _ => true
-  | .waitStatus .own => ownFailed
-  | .waitStatus _ => true      -- killed by a signal: *exec.ExitError
 
 end GIV.TsLife
